@@ -23,7 +23,7 @@ ASSUMPTIONS = ['Python int lists must come back as an integer dtype holding all 
                'empty arrays of dtypes without a TDMS mapping carry no type requirement']
 REQUIRED = ['read_back_through_writer_index', 'objects_from_another_file', 'programs', 'segments_accepted', 'channels_compared', 'props_compared', 'prop_types_observed', 'append_sessions', 'path_targets',
             'names_checked']
-N = {'quick': 8000, 'thorough': 100000}
+N = {'quick': 8000, 'thorough': 1000000}
 
 
 def gen_cases(tier, seed):
